@@ -61,6 +61,7 @@ def run(ctx):
     L.run_links(ctx, ctx.n(40, 400))
     L.run_refused(ctx, ctx.n(12, 48))
     K.run_kinds(ctx, ctx.n(20, 192))
+    K.run_large_files(ctx)
     R.run_rm(ctx, ctx.n(16, 300))
 
 
@@ -69,6 +70,10 @@ def replay_case(ctx, case):
         return L.replay(ctx, case)
     if case.get("falsy"):
         return R.replay(ctx, case)
+    if case.get("large_files"):
+        before = len(ctx.violations)
+        K.run_large_files(ctx)
+        return {"violates": len(ctx.violations) > before}
     if case.get("kind_change"):
         problems, out = K.run_kind_case(ctx, case)
         return {"outcome": out, "problems": problems, "violates": bool(problems)}
